@@ -71,7 +71,9 @@ Thing: FLOAT | BOOL | STRING | Num;
 
 
 def strings():
-    return st.lists(st.sampled_from(ALPHABET), min_size=0, max_size=30).map("".join)
+    short = st.lists(st.sampled_from(ALPHABET), min_size=0, max_size=6).map("".join)
+    long = st.lists(st.sampled_from(ALPHABET), min_size=14, max_size=30).map("".join)
+    return st.one_of(short, short, long)
 
 
 @st.composite
@@ -145,8 +147,11 @@ def strategy(tier):
 
 
 def q(s):
-    """a textX STRING literal for s"""
-    return '"' + s.replace("\\", "\\\\").replace('"', '\\"') + '"'
+    """a textX STRING literal for s: only the delimiter can be escaped, a backslash is literal (so a value cannot end in
+    a backslash - a blank is appended); the check reads the values back from the loaded model"""
+    if s.endswith("\\"):
+        s += " "
+    return '"' + s.replace('"', '\\"') + '"'
 
 
 def p_item(it):
@@ -215,20 +220,28 @@ def graphviz_accepts(text):
     return (not bad), err.strip()[:300]
 
 
-def culprit(strs):
-    """which exported string place carries a special character (for bucketing)"""
+def culprit(strs, chars=SPECIAL):
+    """which exported string place carries one of the characters (for bucketing)"""
     for place in ("name", "mixed_list_str", "attr", "list"):
-        if any(SPECIAL & set(s) for p, s in strs if p == place):
+        if any(chars & set(s) for p, s in strs if p == place):
             return place + "_with_special_chars"
     return "no_special_chars"
 
 
+def obj_culprit(o):
+    """for a malformed label of one object: its name if that carries a special character, else its other values"""
+    name = getattr(o, "name", None)
+    if isinstance(name, str) and SPECIAL & set(name):
+        return "name_with_special_chars"
+    return "attr_with_special_chars"
+
+
 def check_dot_model(out, text, objs, strs):
-    tag = culprit(strs)
     try:
         p = D.parse(text)
     except D.DotError as e:
-        out.add(f"model_dot_invalid/{tag}", f"{e}; export:\n{text[190:1500]}")
+        # only a quote or a backslash can break the token level of DOT
+        out.add(f"model_dot_invalid/{culprit(strs, set(chr(34) + chr(92)))}", f"{e}; export:\n{text[190:1500]}")
         return None
     count = {}
     for nid, attrs in p.node_stmts:
@@ -236,20 +249,31 @@ def check_dot_model(out, text, objs, strs):
     for o in objs:
         nid = str(id(o))
         if count.get(nid, 0) != 1:
-            out.add(f"model_object_without_single_node/{tag}", f"{type(o).__name__} has {count.get(nid, 0)} labelled node statements")
+            out.add("model_object_without_single_node", f"{type(o).__name__} has {count.get(nid, 0)} labelled node statements")
             continue
         lab = p.nodes[nid]["label"]
         if lab[0] != "str":
             continue
         label = lab[1]
-        if not D.record_label_balanced(label):
-            out.add(f"record_label_unbalanced/{tag}", f"label {label!r}")
+        tag = obj_culprit(o)
+        err = D.record_label_error(label)
+        if err:
+            out.add(f"record_label_malformed/{tag}", f"label {label!r}: {err}")
             continue
         nf = top_fields(label)
         if nf != 2:
             out.add(f"record_label_fields/{tag}", f"label {label!r} has {nf} top-level fields, expected 2 (name | attributes)")
         elif not D.first_field(label).endswith(":" + type(o).__name__):
             out.add(f"record_label_name_field/{tag}", f"label {label!r}: first field does not end in ':{type(o).__name__}'")
+    # nodes that exist only as edge end points (primitive members of mixed lists) are drawn with the default record
+    # shape and their own name as label: the name must be a well-formed record label too
+    labelled = {nid for nid, attrs in p.node_stmts if "label" in attrs}
+    for ends, _ in p.edges:
+        for e in ends:
+            if e is not None and e not in labelled:
+                err = D.record_label_error(e)
+                if err:
+                    out.add("implicit_node_label_malformed/mixed_list_str_with_special_chars", f"node {e!r}: {err}")
     return p
 
 
@@ -321,7 +345,7 @@ def eval_model(case, out):
                 model_export(model, path)
             else:
                 model._tx_filename = os.path.join(tmp, "m.fam")
-                generator_for_language_target("any", "dot").generator(mm, model, tmp, True, False)
+                generator_for_language_target("any", "dot")(mm, model, tmp, True, False)
                 path = os.path.join(tmp, "m.dot")
             with open(path, encoding="utf-8") as f:
                 text = f.read()
@@ -425,8 +449,8 @@ def eval_metamodel(case, out):
         else:
             mm.file_name = os.path.join(tmp, "g.tx")
             tx = None
-            generator_for_language_target("textX", "dot").generator(tx, mm, tmp, True, False)
-            generator_for_language_target("textX", "PlantUML").generator(tx, mm, tmp, True, False)
+            generator_for_language_target("textX", "dot")(tx, mm, tmp, True, False)
+            generator_for_language_target("textX", "PlantUML")(tx, mm, tmp, True, False)
         with open(os.path.join(tmp, "g.dot"), encoding="utf-8") as f:
             dot = f.read()
         with open(os.path.join(tmp, "g.pu"), encoding="utf-8") as f:
@@ -446,8 +470,9 @@ def eval_metamodel(case, out):
         for nid, attrs in p.node_stmts:
             lab = attrs.get("label")
             if lab and lab[0] == "str":
-                if not D.record_label_balanced(lab[1]):
-                    out.add("metamodel_record_label_unbalanced", f"label {lab[1]!r}")
+                err = D.record_label_error(lab[1])
+                if err:
+                    out.add("metamodel_record_label_malformed", f"label {lab[1]!r}: {err}")
                 ff = D.first_field(lab[1])
                 firsts[ff] = firsts.get(ff, 0) + 1
         names = {}
